@@ -67,6 +67,11 @@ func (g *partialStructGen) GenerateType(c gengo.Context, named *types.Named) err
 		for _, spec := range d.Specs {
 			switch x := spec.(type) {
 			case *ast.TypeSpec:
+				if x.Name == nil || x.Name.Name != named.Obj().Name() {
+					// another type of the same type (...) group
+					continue
+				}
+
 				switch x := x.Type.(type) {
 				case *ast.Ident:
 					switch x := pkg.ObjectOf(x).(type) {
